@@ -3,7 +3,7 @@
   Model: `Influx.Model.DBRP` (dbrp.Service over its four kv buckets + bucket service).
 -/
 import Influx.Spec.C43
-import Influx.Lemmas.DBRP
+import Influx.Lemmas.DBRPStep
 
 namespace Influx.Props.C43
 open Influx.DBRP Influx.Spec.C43
@@ -32,30 +32,85 @@ theorem isDBRPUnique_iff (s : St) (m : Mapping) :
       ∀ v ∈ walk s m.OrganizationID m.Database, v.ID = m.ID ∨ v.RetentionPolicy ≠ m.RetentionPolicy := by
   simp [isDBRPUnique]
 
-/-- queries the statement is observed through -/
-def judged : Op → Bool
-  | .find f => (classify f).isSome
-  | _ => false
+/-- in every state reached by a physical-only history the four kv buckets are consistent: records
+    in key order with distinct ids, both indexes list exactly the stored mappings, every database
+    with a stored mapping has a default entry naming one of its mappings, and (org, db, rp) is
+    unique among the stored mappings -/
+theorem reachable_inv (ops : List Op) (h : ∀ op ∈ ops, physOp op = true) :
+    Inv (ops.foldl (fun s op => (step s op).1) St.init) := by
+  have key : ∀ (l : List Op) (s : St), (∀ op ∈ l, physOp op = true) → Inv s →
+      Inv (l.foldl (fun s op => (step s op).1) s) := by
+    intro l
+    induction l with
+    | nil => intro s _ hs; exact hs
+    | cons o os ih =>
+      intro s hl hs
+      exact ih _ (fun op hop => hl op (by simp [hop])) (step_inv s o hs (hl o (by simp)))
+  exact key ops St.init h Inv.init
 
-/-- first round: the statement checker accepts the model's trace on histories without judged
-    lookups (trivially) — the trace-level theorem over create/update/delete histories
-    (`C43_holdsOn`) needs the consistency invariant of the four kv buckets. -/
-theorem C43_holdsOn_partial (ops : List Op) (h : ∀ op ∈ ops, judged op = false) (s : St)
-    (known : List (Nat × List Mapping)) : judge known (run s ops) = true := by
-  induction ops generalizing s known with
-  | nil => rfl
-  | cons op ops ih =>
-    simp only [run, judge, Bool.and_eq_true]
-    refine ⟨?_, ih (fun o ho => h o (by simp [ho])) _ _⟩
-    have hop := h op (by simp)
-    cases op with
-    | find f =>
-      simp only [judged, Option.isSome_eq_false_iff, Option.isNone_iff_eq_none] at hop
-      simp only [step]
-      split <;> simp [holdsOp, hop]
-    | _ => simp [holdsOp]
+/-- the listing of an organization in a consistent state: only its mappings, each (db, rp) once,
+    exactly one default per database that has a stored mapping (at most one otherwise) -/
+theorem listing_statement {s : St} (h : Inv s) (org : Nat) :
+    ∃ L, findMany s { OrgID := some org } = .ok L ∧ listingOK org L = true :=
+  ⟨_, findMany_listing h org, listing_ok h org⟩
 
-example : ∀ op ∈ [Op.bucket 1 1000 "db0", Op.create 1 "db0" "rp0" false 1000, Op.delete 1 1, Op.dump], judged op = false := by
+/-- the lookup by (org, db, rp) returns at most one mapping — the one the listing shows for the pair
+    (stored before virtual: a virtual mapping never shadows a stored one) -/
+theorem resolve_statement {s : St} (h : Inv s) (org : Nat) (db rp : String) (hdb : db ≠ "") :
+    ∃ R L, findMany s { OrgID := some org, Database := some db, RetentionPolicy := some rp } = .ok R ∧
+      findMany s { OrgID := some org } = .ok L ∧ R.length ≤ 1 ∧
+      ids R = ids (L.filter fun m => m.Database == db && m.RetentionPolicy == rp) :=
+  ⟨_, _, findMany_resolve h org db rp hdb, findMany_listing h org, (resolve_ok h org db rp).1, (resolve_ok h org db rp).2⟩
+
+/-- the lookup with an empty retention policy returns at most one mapping; for a database with a
+    stored mapping it is the mapping the listing flags as default -/
+theorem default_statement {s : St} (h : Inv s) (org : Nat) (db : String) (hdb : db ≠ "") :
+    ∃ R L, findMany s { OrgID := some org, Database := some db, Default := some true } = .ok R ∧
+      findMany s { OrgID := some org } = .ok L ∧ R.length ≤ 1 ∧
+      ((L.any fun m => m.Database == db && !m.Virtual) = true →
+        ids R = ids (L.filter fun m => m.Database == db && m.Default)) := by
+  obtain ⟨R, hR, hlen, hcmp⟩ := default_ok h org db hdb
+  exact ⟨R, _, hR, findMany_listing h org, hlen, hcmp⟩
+
+/-- deleting a stored mapping (the default or not) leaves every remaining mapping's database with a
+    default entry that names a remaining mapping of that database: the default is promoted iff
+    another mapping exists -/
+theorem delete_promotes {s : St} (h : Inv s) (org id : Nat) (hodd : id % 2 = 1) :
+    ∀ x ∈ (delete s org id).1.recs, ∃ y ∈ (delete s org id).1.recs,
+      getDefault (delete s org id).1 x.OrganizationID x.Database = some y.ID ∧
+      y.OrganizationID = x.OrganizationID ∧ y.Database = x.Database := by
+  intro x hx
+  have hi := delete_inv h org id hodd
+  have hex := hi.defEx x hx
+  cases hd : getDefault (delete s org id).1 x.OrganizationID x.Database with
+  | none => simp [hd] at hex
+  | some d =>
+    obtain ⟨y, hy, e1, e2, e3⟩ := hi.defSome _ _ _ hd
+    exact ⟨y, hy, by rw [e1], e2, e3⟩
+
+/-- **C43 (partial: physical-only histories)**: on every history in which mappings are created,
+    updated and deleted through the ids the service handed out (any interleaving with bucket
+    creation/deletion, so virtual mappings come and go), the statement checker accepts the model's
+    trace.  The missing part is the known finding `virtual-mapping-mutated` (`C43_full_fails`). -/
+theorem C43_partial (ops : List Op) (h : ∀ op ∈ ops, physOp op = true) : holdsOn (run St.init ops) = true :=
+  judge_run ops h St.init [] Inv.init (by intro p hp; simp at hp)
+
+/-- the history of the known finding: PATCH of a virtual mapping with `default = true` -/
+def virtualUpdate : List Op :=
+  [Op.bucket 2 1002 "db1/rp1", Op.create 2 "db1" "rp0" false 1002, Op.update 2 1002 none (some true),
+   Op.find { OrgID := some 2 }]
+
+/-- **the full statement is false of the code**: after updating the virtual mapping of bucket 1002
+    the listing of organization 2 shows database `db1` with a stored mapping and no default -/
+theorem C43_full_fails : ¬ ∀ ops : List Op, holdsOn (run St.init ops) = true := by
+  intro h
+  have := h virtualUpdate
+  revert this
   decide
+
+-- non-vacuity of the partial theorem's hypothesis: creates, an update, a delete, bucket changes
+example : ∀ op ∈ [Op.bucket 1 1000 "db0", Op.create 1 "db0" "rp0" false 1000, Op.create 1 "db0" "rp1" true 1000,
+    Op.update 1 1 (some "rp2") (some true), Op.delete 1 3, Op.delBucket 1000, Op.find { OrgID := some 1 }],
+    physOp op = true := by decide
 
 end Influx.Props.C43
